@@ -3007,3 +3007,195 @@ func remoteClassificationAgrees(c *Check, a *Anchors) {
 	}
 	c.Floor("remote-classification-agrees", n, 1)
 }
+
+// callObjectPerGoroutine (C18): resolving a call writes into it, so a call object belongs to one goroutine.
+func callObjectPerGoroutine(c *Check, a *Anchors) {
+	c.Rule("call-object-per-goroutine", "GetTask stores the wildcard matches into the variables of the *Call it resolves, and every function that passes its *Call parameter on (RunTask, the task compiler, the deferred runner ...) inherits that write. In every function of package task that starts goroutines, a *Call handed to such a function inside a goroutine is either created for that goroutine (a literal, or the result of a copying helper) or an element of a slice that the function does not touch again — in another goroutine or after the spawn — in a way that reaches those writers. Two goroutines resolving the same *Call write and iterate its variables concurrently")
+	// W: functions that write through a *Call parameter, closed under passing the parameter on
+	isCallPtr := func(t types.Type) bool {
+		if p, ok := t.(*types.Pointer); ok {
+			if n, ok := p.Elem().(*types.Named); ok && n.Obj().Name() == "Call" && n.Obj().Pkg() != nil && n.Obj().Pkg().Path() == PkgTask {
+				return true
+			}
+		}
+		return false
+	}
+	writers := map[*FuncBody]bool{}
+	if a.GetTask != nil {
+		writers[a.GetTask] = true
+	}
+	for changed := true; changed; {
+		changed = false
+		for _, fb := range c.P.BodiesIn(PkgTask) {
+			if fb.Decl == nil || writers[fb] || fb.Type.Params == nil {
+				continue
+			}
+			info := fb.Info()
+			var callParams []*types.Var
+			for _, fld := range fb.Type.Params.List {
+				for _, id := range fld.Names {
+					if v, ok := info.Defs[id].(*types.Var); ok && isCallPtr(v.Type()) {
+						callParams = append(callParams, v)
+					}
+				}
+			}
+			if len(callParams) == 0 {
+				continue
+			}
+			for _, call := range callsIn(fb, true) {
+				fn, ok := callee(info, call).(*types.Func)
+				if !ok {
+					continue
+				}
+				d := c.P.DeclOf(fn)
+				if d == nil || !writers[d] {
+					continue
+				}
+				for _, arg := range call.Args {
+					for _, p := range callParams {
+						if varOf(info, arg) == p {
+							writers[fb] = true
+							changed = true
+						}
+					}
+				}
+			}
+		}
+	}
+	isWriterCall := func(info *types.Info, call *ast.CallExpr) bool {
+		fn, ok := callee(info, call).(*types.Func)
+		if !ok {
+			return false
+		}
+		d := c.P.DeclOf(fn)
+		return d != nil && writers[d]
+	}
+	n := 0
+	ord := map[string]int{}
+	for _, fb := range c.P.BodiesIn(PkgTask) {
+		if fb.Decl == nil {
+			continue
+		}
+		spawns := spawnSites(fb)
+		if len(spawns) == 0 {
+			continue
+		}
+		info := fb.Info()
+		firstSpawn := spawns[0].Pos()
+		for _, sp := range spawns {
+			if sp.Pos() < firstSpawn {
+				firstSpawn = sp.Pos()
+			}
+		}
+		for _, sp := range spawns {
+			// the spawned function literal
+			var lit *ast.FuncLit
+			ast.Inspect(sp, func(m ast.Node) bool {
+				if l, ok := m.(*ast.FuncLit); ok && lit == nil {
+					lit = l
+				}
+				return lit == nil
+			})
+			if lit == nil {
+				continue
+			}
+			ast.Inspect(lit.Body, func(m ast.Node) bool {
+				call, ok := m.(*ast.CallExpr)
+				if !ok || !isWriterCall(info, call) {
+					return true
+				}
+				for _, arg := range call.Args {
+					tv, ok := info.Types[arg]
+					if !ok || !isCallPtr(tv.Type) {
+						continue
+					}
+					n++
+					c.Fn(fb)
+					okArg, why := callPrivate(c, info, fb, sp, lit, arg, firstSpawn, isWriterCall)
+					c.Decide(okArg, "call-object-per-goroutine", ordinal(ord, calleeName(callee(info, call))+"@"+fnDisplay(fb)), call.Pos(), why,
+						fmt.Sprintf("the *Call `%s` handed to %s inside a goroutine of %s is %s: GetTask writes MATCH into its variables while the other user iterates them (data race; the variables one run sees depend on the other)", exprStr(arg), calleeName(callee(info, call)), fnDisplay(fb), why))
+				}
+				return true
+			})
+		}
+	}
+	c.Extra["call_writers"] = len(writers)
+	c.Floor("call-object-per-goroutine", n, 3)
+}
+
+func callPrivate(c *Check, info *types.Info, fb *FuncBody, spawn ast.Node, lit *ast.FuncLit, arg ast.Expr, firstSpawn token.Pos, isWriterCall func(*types.Info, *ast.CallExpr) bool) (bool, string) {
+	arg = ast.Unparen(arg)
+	if u, ok := arg.(*ast.UnaryExpr); ok && u.Op == token.AND {
+		if _, isLit := ast.Unparen(u.X).(*ast.CompositeLit); isLit {
+			return true, "a literal created for this call"
+		}
+	}
+	if call, ok := arg.(*ast.CallExpr); ok {
+		if !isWriterCall(info, call) {
+			return true, "the result of a helper (a copy)"
+		}
+	}
+	v := varOf(info, arg)
+	if v == nil {
+		return false, "not a variable of this goroutine"
+	}
+	// follow `c := c` / `c := copy(c)` definitions
+	for depth := 0; depth < 4; depth++ {
+		defs := defsOf(info, fb.Body, v)
+		if len(defs) != 1 {
+			break
+		}
+		d := ast.Unparen(defs[0])
+		if u, ok := d.(*ast.UnaryExpr); ok && u.Op == token.AND {
+			if _, isLit := ast.Unparen(u.X).(*ast.CompositeLit); isLit {
+				return true, "a literal created for this goroutine"
+			}
+		}
+		if call, ok := d.(*ast.CallExpr); ok {
+			if fn, ok := callee(info, call).(*types.Func); ok && fn.Pkg() != nil && fn.Pkg().Path() == PkgTask && !isWriterCall(info, call) {
+				return true, "a copy made for this goroutine (" + fn.Name() + ")"
+			}
+			break
+		}
+		nv := varOf(info, d)
+		if nv == nil {
+			break
+		}
+		v = nv
+	}
+	// a range element of a slice: the slice must not be used again concurrently
+	var slice *types.Var
+	var rng *ast.RangeStmt
+	inspectDeep(fb.Body, func(nd ast.Node) bool {
+		if r, ok := nd.(*ast.RangeStmt); ok && r.Value != nil && varOf(info, r.Value) == v {
+			slice, rng = rootVar(info, r.X), r
+		}
+		return true
+	})
+	if slice == nil {
+		return false, "a variable shared with the code outside the goroutine"
+	}
+	other := ""
+	inspectDeep(fb.Body, func(nd ast.Node) bool {
+		id, ok := nd.(*ast.Ident)
+		if !ok || info.Uses[id] != slice || within(id, rng) && id.Pos() < rng.Body.Pos() {
+			return true
+		}
+		if id.Pos() < firstSpawn {
+			return true // sequential use before any goroutine exists
+		}
+		other = c.P.Fset.Position(id.Pos()).String()
+		return true
+	})
+	if other != "" {
+		return false, "an element of `" + slice.Name() + "`, which is used again while the goroutines run (" + filepathBase(other) + ")"
+	}
+	return true, "an element of a slice that only this loop hands out"
+}
+
+func filepathBase(p string) string {
+	if i := strings.LastIndex(p, "/"); i >= 0 {
+		return p[i+1:]
+	}
+	return p
+}
